@@ -1035,14 +1035,28 @@ def r18_11(rep: Report) -> None:
     tvar = sorted(own)[0]
 
     def upd(st, facts):
+        # `from-t:<name>`: the name holds a value computed from the S@t of the element at hand.  Reading the
+        # attribute starts afresh (what was derived from the previous element's t is not from this one); a name
+        # assigned from something else loses the mark - also the variable the attribute was read into
+        # (`t = start` after a complaint makes the timeline contiguous again)
         facts = set(facts)
-        if isinstance(st, (ast.Assign, ast.AnnAssign)) and getattr(st, 'value', None) is not None:
+        if isinstance(st, (ast.Assign, ast.AnnAssign, ast.AugAssign)) and getattr(st, 'value', None) is not None:
             tg = st.targets[0] if isinstance(st, ast.Assign) else st.target
             if isinstance(tg, ast.Name):
-                if tg.id == tvar:
-                    facts = {f for f in facts if not f.startswith('from-t:')}
-                elif any(isinstance(x, ast.Name) and x.id == tvar for x in ast.walk(st.value)):
-                    facts.add(f'from-t:{tg.id}')
+                v = st.value
+                is_source = (isinstance(v, ast.Call) and (call_name(v) or '').endswith('.get') and v.args
+                             and isinstance(v.args[0], ast.Constant) and v.args[0].value == 't'
+                             and isinstance(v.func, ast.Attribute) and isinstance(v.func.value, ast.Name)
+                             and v.func.value.id in loop_vars)
+                if is_source:
+                    facts = {f for f in facts if not f.startswith('from-t:')} | {f'from-t:{tg.id}'}
+                else:
+                    tainted = any(isinstance(x, ast.Name) and f'from-t:{x.id}' in facts for x in ast.walk(v))
+                    if isinstance(st, ast.AugAssign):
+                        tainted = tainted or f'from-t:{tg.id}' in facts
+                    facts.discard(f'from-t:{tg.id}')
+                    if tainted:
+                        facts.add(f'from-t:{tg.id}')
         return facts
     sites: list = []
 
@@ -1053,7 +1067,16 @@ def r18_11(rep: Report) -> None:
             if isinstance(c, ast.Call) and (call_name(c) or '').endswith('SegmentEntry') and c.args and isinstance(c.args[0], ast.Name):
                 for x in states:
                     sites.append((c, c.args[0].id, x))
-    Flow(Disjunctive(PathCond(upd=upd), cap=256), on_stmt=on_stmt).run(fn, [PathCond.initial()])
+    def decide(test, facts):
+        # check_not_none(x) answers `x is not None` (R18.1 reads the family): known where x is known not to be None
+        neg = False
+        while isinstance(test, ast.UnaryOp) and isinstance(test.op, ast.Not):
+            test, neg = test.operand, not neg
+        if isinstance(test, ast.Call) and (call_name(test) or '').endswith('.check_not_none') and test.args \
+                and isinstance(test.args[0], ast.Name) and f'notnone:{test.args[0].id}' in facts:
+            return not neg
+        return None
+    Flow(Disjunctive(PathCond(upd=upd, decide=decide), cap=256), on_stmt=on_stmt).run(fn, [PathCond.initial()])
     if not sites:
         raise AnalysisError('SegmentTimeline.__init__: no SegmentEntry(<start>, ..) construction reached')
     given = f_not(('atom', f'{tvar} is None'))
